@@ -105,7 +105,7 @@ func runC17(p *core.Program, r *core.Report) {
 	r.NotDecided = []string{"the read window arithmetic (start/length/offset): only expressible as a frozen text match, so not claimed", "contents of files over histories, ordering across goroutines (delegated to log.Logger)", "the virtual clock"}
 	r.Rule("C17.read-path", "the read call never opens a path outside <home>/logs", 1)
 	r.Rule("C17.retention", "os.Remove only for own-prefixed, dated, expired files of the logs directory with rotation and keep-days enabled", 7)
-	r.Rule("C17.append", "log files are opened append/create/write-only, never truncated, named <logID>-<oname>-<date>.log under <home>/logs", 3)
+	r.Rule("C17.append", "log files are opened append/create/write-only, never truncated, named <logID>-<oname>-<date>.log under <home>/logs", 2)
 	r.Rule("C17.single-sink", "all output goes through the one log.Logger; the file handle is never written directly", 1)
 	r.Rule("C17.levels", "each level method gates on its own level constant with '>' before formatting", 8)
 	r.Rule("C17.ratelimit", "checkOk suppresses iff now < last + sec*1000 and records the time only when not suppressing; level methods consult it after the gate with cacheInterval", 8)
@@ -311,8 +311,34 @@ func c17Append(p *core.Program, r *core.Report) {
 			flags, okF := constIntOf(info, call.Args[1])
 			r.Check(okF && flags == want, "C17.append", c+" flags", pos, "O_CREATE|O_WRONLY|O_APPEND", fmt.Sprintf("open flags are %#x, want O_CREATE|O_WRONLY|O_APPEND (%#x): existing log content can be truncated or overwritten", flags, want))
 			path := strings.ReplaceAll(stripSpaces(types.ExprString(call.Args[0])), rn+".", "")
-			okName := strings.HasPrefix(path, `filepath.Join(home,"logs",fmt.Sprintf("%s-%s`) &&
-				(strings.Contains(path, `"%s-%s-%s.log",conf.logID,conf.oname,dateutil.YYYYMMDD(dateutil.Now()))`) || strings.Contains(path, `"%s-%s.log",conf.logID,conf.oname)`))
+			// <home>/logs/<name>, where <name> is one of the two name formats, written in place or
+			// selected into a local first (every value the local can hold must be one of them)
+			okName := false
+			if jc, isCall := ast.Unparen(call.Args[0]).(*ast.CallExpr); isCall && stripSpaces(types.ExprString(jc.Fun)) == "filepath.Join" && len(jc.Args) == 3 &&
+				stripSpaces(types.ExprString(jc.Args[0])) == "home" && stripSpaces(types.ExprString(jc.Args[1])) == `"logs"` {
+				cands := []ast.Expr{jc.Args[2]}
+				if id, isId := ast.Unparen(jc.Args[2]).(*ast.Ident); isId {
+					cands = nil
+					obj := info.ObjectOf(id)
+					ast.Inspect(fi.Decl.Body, func(k ast.Node) bool {
+						if as, ok := k.(*ast.AssignStmt); ok && len(as.Lhs) == len(as.Rhs) {
+							for i, l := range as.Lhs {
+								if lid, ok := l.(*ast.Ident); ok && info.ObjectOf(lid) == obj {
+									cands = append(cands, as.Rhs[i])
+								}
+							}
+						}
+						return true
+					})
+				}
+				okName = len(cands) > 0
+				for _, cand := range cands {
+					s := strings.ReplaceAll(stripSpaces(types.ExprString(cand)), rn+".", "")
+					if s != `fmt.Sprintf("%s-%s-%s.log",conf.logID,conf.oname,dateutil.YYYYMMDD(dateutil.Now()))` && s != `fmt.Sprintf("%s-%s.log",conf.logID,conf.oname)` {
+						okName = false
+					}
+				}
+			}
 			r.Check(okName, "C17.append", c+" name", pos, "<home>/logs/<logID>-<oname>[-<YYYYMMDD(now)>].log", "log file path is `"+path+"`")
 			if fi.Obj.Name() != "openFile" {
 				r.Viol("C17.rotate", c+" opener", pos, "a log file is opened outside openFile()")
@@ -373,13 +399,30 @@ func c17Levels(p *core.Program, r *core.Report) {
 			r.Check(ok, "C17.levels", c, pos, "returns when conf.level > "+lvl, "the method is not gated by `conf.level > logger."+lvl+"` as its first statement: lines of this level appear or disappear at the wrong setting")
 		}
 		// rate limiter after the gate with cacheInterval (debug: no cache)
+		// the limiter call, in the method itself or in an unexported same-package helper it delegates to
 		uses := ""
-		ast.Inspect(fi.Decl.Body, func(m ast.Node) bool {
-			if call, ok := m.(*ast.CallExpr); ok && strings.HasSuffix(stripSpaces(types.ExprString(call.Fun)), ".checkOk") && len(call.Args) == 2 {
-				uses = stripSpaces(types.ExprString(call.Args[1]))
-			}
-			return true
-		})
+		var findLimiter func(body ast.Node, depth int)
+		findLimiter = func(body ast.Node, depth int) {
+			ast.Inspect(body, func(m ast.Node) bool {
+				call, ok := m.(*ast.CallExpr)
+				if !ok {
+					return true
+				}
+				if strings.HasSuffix(stripSpaces(types.ExprString(call.Fun)), ".checkOk") && len(call.Args) == 2 {
+					uses = stripSpaces(types.ExprString(call.Args[1]))
+					return true
+				}
+				if sel, isSel := call.Fun.(*ast.SelectorExpr); isSel && depth < 2 {
+					if fn, _ := fi.Pkg.TypesInfo.Uses[sel.Sel].(*types.Func); fn != nil && !fn.Exported() && fn.Pkg() == fi.Obj.Pkg() {
+						if cfi := p.FuncOf(fn); cfi != nil && cfi.Decl.Body != nil && cfi != fi {
+							findLimiter(cfi.Decl.Body, depth+1)
+						}
+					}
+				}
+				return true
+			})
+		}
+		findLimiter(fi.Decl.Body, 0)
 		if strings.HasPrefix(name, "Debug") {
 			r.Check(uses == "", "C17.ratelimit", c+" limiter", pos, "debug lines are not rate limited", "debug lines are rate limited")
 		} else {
